@@ -165,7 +165,7 @@ def gen(item, rng, tier):
             kind = 'none'           # no passing slot for a UDF in this cell: plain block
     flags_static = True
     written = set()
-    sp_loaded = stack_used = False
+    sp_loaded = stack_used = dirty = False
     e_main = int(rng.random() < 0.25)                                     # big-endian data in the main program: memory effects are compared in that byte order
     bo = 'big' if e_main else 'little'
     for i in range(n):
@@ -202,7 +202,7 @@ def gen(item, rng, tier):
                     break
             else:
                 nme, w = 'mov_imm8', T.mov_imm(rd, 0x9C)
-            slots.append({'t': 'dp16', 'w': w, 'rd': rd, 'rm': rm, 'name': nme, 'nonvacuous': bool(flags_static) and rd not in written and rm not in written})
+            slots.append({'t': 'dp16', 'w': w, 'rd': rd, 'rm': rm, 'name': nme, 'nonvacuous': bool(flags_static) and rd not in written_before and rm not in written_before and not dirty})
         elif t == 'movw':
             imm = 0x40 + i
             slots.append({'t': 'mov', 'w': T.mov_w(rd, imm), 'rd': rd, 'imm': imm})
@@ -212,6 +212,7 @@ def gen(item, rng, tier):
             # a seeded member of the 32-bit Thumb data-processing families (registers r0-r5 only, so no UNPREDICTABLE forms):
             # checked for 'failing condition => no register, flag or memory change' and for the ITSTATE advance
             slots.append({'t': 'any', 'w': rand_dp32(rng), 'name': 'dp32'})
+            dirty = True              # r0-r5 may hold anything from here on: later 'register must change' expectations are off
         elif t == 'multi':
             kindm = rng.choice(['stm', 'ldm', 'ldrd', 'strd', 'nop', 'nopw', 'msr_x', 'msr_x', 'hi16', 'hi16', 'adr', 'ldrex', 'misc32'] +
                                ([] if sp_loaded else ['push', 'pop', 'push', 'pop', 'popw', 'spadj']))
@@ -259,6 +260,7 @@ def gen(item, rng, tier):
             else:
                 w = T.NOP if kindm == 'nop' else T.NOP_W
             slots.append({'t': 'any', 'w': w, 'name': kindm})
+            dirty = True
         elif t in ('ldrw', 'strw'):
             # 32-bit load/store whose second halfword starts with every Rt value, SP included (hw2[15:12] = 0b1101 looks like a B<c> halfword)
             rt = rng.choice([rd, rd, 13 if (t == 'ldrw' and not stack_used) else rd, 12, 8])
@@ -270,7 +272,7 @@ def gen(item, rng, tier):
             else:
                 slots.append({'t': 'str', 'w': T.str_w(rt, 6, 4 * off), 'rt': rt, 'addr': P.DBASE + 4 * off})
         elif t == 'mrs':
-            slots.append({'t': 'chg', 'w': T.mrs(rd), 'rd': rd, 'name': 'mrs', 'nonvacuous': rd not in written_before})        # 32-bit system instruction: conditional like any other
+            slots.append({'t': 'chg', 'w': T.mrs(rd), 'rd': rd, 'name': 'mrs', 'nonvacuous': rd not in written_before and not dirty})        # 32-bit system instruction: conditional like any other
         elif t == 'cmp':
             slots.append({'t': 'cmp', 'w': T.cmp_imm(rd, rng.choice([0, 0x10, 0xFF, regs0[rd] & 0xFF]))})
             flags_static = False
